@@ -264,43 +264,122 @@ def serializeToks (cfg : HtmlCfg) (evs : List Ev) : List HTok :=
   let (s1, o) := runFrom cfg s0 evs
   h ++ o ++ endDocument cfg s1
 
-/-! ### lexical rendering, plain content only -/
+/-! ### lexical rendering
 
-def plainTextChar (c : Nat) : Option Str :=
-  if c = 60 then some (s "&lt;") else if c = 62 then some (s "&gt;") else if c = 38 then some (s "&amp;")
+`writeCharacters` 670-760, `writeAttrString` 765-850, `processAttribute` 886-920, `writeAttrURI` 924-1080,
+`accumDefaultEntity` 541-580 over the regenerated entity table, `initCharsMap`/`initAttrCharsMap` 150-203 (with
+the FormatterToXML base maps).  Characters outside the BMP (surrogate units) are not rendered (`none`): the check
+then relies on the read-back predicates. -/
+
+/-- `XalanTranscodingServices::getMaximumCharacterValue(encoding)` as FormatterToXML's constructor stores it -/
+def htmlMaxChar (enc : Str) : Nat :=
+  let e := upper (if enc.isEmpty then utf8 else enc)
+  if e = s "UTF-8" || e = s "UTF-16" || e = s "UTF-16LE" || e = s "UTF-16BE" then 0xFFFF
+  else if e = s "ISO-8859-1" then 0xFF else 0x7F
+
+def isSurrogateUnit (c : Nat) : Bool := 0xD800 ≤ c && c ≤ 0xDFFF
+
+/-- `accumContent(ch)`: for a non-UTF encoding `accumContentAsChar` turns a character above `m_maxCharacter` into a
+numeric reference (for the UTF encodings `mx` = 0xFFFF and every BMP character is written as it is) -/
+def lit (mx c : Nat) : Str := if c > mx then charRef c else [c]
+
+/-- the entity table is ordered by character, as the binary search of `accumDefaultEntity` needs -/
+def entitiesSorted : List (Nat × List Nat) → Bool
+  | a :: b :: r => decide (a.1 < b.1) && entitiesSorted (b :: r)
+  | _ => true
+
+def entityName (c : Nat) : Option Str := (htmlEntities.find? fun e => e.1 == c).map (·.2)
+
+/-- `m_charsMap[c] == 'S'` (HTML `initCharsMap`).  `memset(m_charsMap, 'S', 10)` writes 10 *bytes* of the 16-bit array,
+i.e. the value 0x5353 into elements 0-4, which is not `'S'`: the characters below 10 are not special. -/
+def textSpecial (mx c : Nat) : Bool :=
+  c = 10 || c = 13 || c = 60 || c = 62 || c = 38 || (160 ≤ c && c < 256) || (mx ≤ c && c < 256)
+
+/-- one character of `FormatterToHTML::writeCharacters` -/
+def htmlTextChar (mx c : Nat) : Option Str :=
+  if isSurrogateUnit c then none
+  else if c < 256 && !textSpecial mx c then some (lit mx c)
   else if c = 10 then some [10]
-  else if 32 ≤ c && c ≤ 126 then some [c] else none
+  else if c = 60 then some (s "&lt;") else if c = 62 then some (s "&gt;") else if c = 38 then some (s "&amp;")
+  else if c = 34 then some (s "&quot;") else if c = 39 then some (s "&apos;")
+  else match entityName c with
+    | some nm => some (s "&" ++ nm ++ s ";")
+    | none => if 0x7F ≤ c && c ≤ mx then some (lit mx c) else some (charRef c)
 
-def plainText (t : Str) : Option Str := (t.mapM plainTextChar).map List.flatten
+def htmlText (mx : Nat) (t : Str) : Option Str := (t.mapM (htmlTextChar mx)).map List.flatten
 
-def safeAttrChar (c : Nat) : Bool :=
-  (48 ≤ c && c ≤ 57) || (65 ≤ c && c ≤ 90) || (97 ≤ c && c ≤ 122) || c = 32 || c = 46 || c = 95 || c = 47 || c = 45 || c = 58
+/-- `m_attrCharsMap[c] == 'S'` (FormatterToXML `initAttrCharsMap`, then the HTML changes) -/
+def attrMapSpecial (c : Nat) : Bool :=
+  if c = 9 || c = 60 || c = 62 then false
+  else c = 38 || c = 34 || c = 13 || c = 10 || (1 ≤ c && c < 0x20) || (0x7F ≤ c && c < 0x9F) || (160 ≤ c && c < 256)
 
-/-- `processAttribute` for values without special characters -/
-def renderAttr (ename : Str) (a : Str × Str) : Option Str :=
+/-- `FormatterToHTML::writeAttrString`; `&{` is left alone -/
+def htmlAttrValue (mx : Nat) : Str → Option Str
+  | [] => some []
+  | c :: rest =>
+    if isSurrogateUnit c then none
+    else
+      let one : Str :=
+        if c < 256 && !attrMapSpecial c then lit mx c
+        else if c = 38 && rest.head? = some 123 then [c]
+        else if c = 60 then s "&lt;" else if c = 62 then s "&gt;" else if c = 38 then s "&amp;"
+        else if c = 34 then s "&quot;" else if c = 39 then s "&apos;"
+        else match entityName c with
+          | some nm => s "&" ++ nm ++ s ";"
+          | none => charRef c
+      (htmlAttrValue mx rest).map (one ++ ·)
+
+def hexDigitU (n : Nat) : Nat := if n < 10 then 48 + n else 55 + n
+
+/-- `accumHexNumber`: `%XX`, upper-case, at least two digits -/
+def pctByte (b : Nat) : Str := [37, hexDigitU (b / 16 % 16), hexDigitU (b % 16)]
+
+/-- one character of `writeAttrURI` (BMP only) -/
+def uriChar (escapeURLs : Bool) (mx c : Nat) : Option Str :=
+  if isSurrogateUnit c then none
+  else if c < 33 || c > 126 then
+    if escapeURLs then
+      if c = 32 then some [c]
+      else if c ≤ 0x7F then some (pctByte c)
+      else if c ≤ 0x7FF then some (pctByte (c / 64 ||| 0xC0) ++ pctByte (c % 64 ||| 0x80))
+      else some (pctByte (c / 4096 ||| 0xE0) ++ pctByte (c / 64 % 64 ||| 0x80) ++ pctByte (c % 64 ||| 0x80))
+    else if c < mx then some (lit mx c) else some (charRef c)
+  else if c = 34 then (if escapeURLs then some (s "%22") else some (s "&quot;"))
+  else if c = 38 then some (s "&amp;")
+  else some [c]
+
+/-- `FormatterToHTML::processAttribute` -/
+def renderAttr (cfg : HtmlCfg) (ename : Str) (a : Str × Str) : Option Str :=
   let fl := findAttrFlags ename a.1
   if (a.2.isEmpty || upper a.1 == upper a.2) && has fl flagATTREMPTY then some (s " " ++ a.1)
-  else if a.2.all safeAttrChar then some (s " " ++ a.1 ++ s "=\"" ++ a.2 ++ s "\"") else none
+  else
+    let v := if has fl flagATTRURL then (a.2.mapM (uriChar cfg.escapeURLs (htmlMaxChar cfg.encoding))).map List.flatten
+             else htmlAttrValue (htmlMaxChar cfg.encoding) a.2
+    v.map fun v => s " " ++ a.1 ++ s "=\"" ++ v ++ s "\""
 
-/-- `FormatterToXML::processAttribute` for values without special characters -/
-def renderXmlAttr (a : Str × Str) : Option Str :=
-  if a.2.all safeAttrChar then some (s " " ++ a.1 ++ s "=\"" ++ a.2 ++ s "\"") else none
+/-- `FormatterToXML::processAttribute` (namespaced elements): the virtual `writeAttrString` is the HTML one -/
+def renderXmlAttr (cfg : HtmlCfg) (a : Str × Str) : Option Str :=
+  (htmlAttrValue (htmlMaxChar cfg.encoding) a.2).map fun v => s " " ++ a.1 ++ s "=\"" ++ v ++ s "\""
 
-def renderTok : HTok → Option Str
+/-- raw text (script content, style content, disable-output-escaping): literal as long as the encoding represents it -/
+def renderRaw (mx : Nat) (t : Str) : Option Str :=
+  if t.all (fun c => !isSurrogateUnit c && c != 13) then some (t.flatMap (lit mx)) else none
+
+def renderTok (cfg : HtmlCfg) : HTok → Option Str
   | .doctypeHtml pub sys =>
     some (s "<!DOCTYPE HTML" ++ (if pub.isEmpty then [] else s " PUBLIC \"" ++ pub ++ s "\"")
       ++ (if sys.isEmpty then [] else (if pub.isEmpty then s " SYSTEM" else []) ++ s " \"" ++ sys ++ s "\"") ++ s ">")
   | .metaTag enc => some (s "<META http-equiv=\"Content-Type\" content=\"text/html; charset=" ++ (if enc.isEmpty then utf8 else enc) ++ s "\">")
-  | .t (.open name attrs) => (attrs.mapM (renderAttr name)).map fun l => s "<" ++ name ++ l.flatten
-  | .xmlOpen name attrs => (attrs.mapM renderXmlAttr).map fun l => s "<" ++ name ++ l.flatten
+  | .t (.open name attrs) => (attrs.mapM (renderAttr cfg name)).map fun l => s "<" ++ name ++ l.flatten
+  | .xmlOpen name attrs => (attrs.mapM (renderXmlAttr cfg)).map fun l => s "<" ++ name ++ l.flatten
   | .t (.emptyEnd sp) => some ((if sp then s " " else []) ++ s "/>")
   | .t .hnl => some [10]
   | .t .gt => some (s ">")
   | .t (.close name) => some (s "</" ++ name ++ s ">")
-  | .t (.text t) => plainText t
-  | .t (.raw t) => if t.all (fun c => 32 ≤ c && c ≤ 126) then some t else none
+  | .t (.text t) => htmlText (htmlMaxChar cfg.encoding) t
+  | .t (.raw t) => renderRaw (htmlMaxChar cfg.encoding) t
   | .t (.comment t) => if t.all (fun c => 32 ≤ c && c ≤ 126) then some (s "<!--" ++ t ++ s "-->") else none
-  | .t (.pi t d) => (plainText d).map fun dd =>
+  | .t (.pi t d) => (htmlText (htmlMaxChar cfg.encoding) d).map fun dd =>
       s "<?" ++ t ++ (match d with
         | [] => []
         | c :: _ => if isXMLWhitespace c then [] else s " ") ++ dd ++ s ">"
@@ -309,6 +388,6 @@ def renderTok : HTok → Option Str
   | .t _ => none
 
 def serializeHtml (cfg : HtmlCfg) (evs : List Ev) : Option Str :=
-  ((serializeToks cfg evs).mapM renderTok).map List.flatten
+  ((serializeToks cfg evs).mapM (renderTok cfg)).map List.flatten
 
 end XalanModel.C08.Html
